@@ -152,6 +152,7 @@ def linear_harness(cname, Dn, K, mode):
             x2, ldi = t.inverse(y)
             return y, ld, x2, ldi
         if mode == "accessors":
+            h.both = t.weight_inverse_and_logabsdet()       # the combined accessor that fills the cache on the inverse path
             return t.weight(), t.weight_inverse(), t.logabsdet()
         if mode == "inverse":
             xi, ldi = t.inverse(x)
@@ -185,6 +186,14 @@ def linear_harness(cname, Dn, K, mode):
             numr, den = exp_of_term(L[()])
             hy = det_factorisation(h, ctx, W)
             ensure(h, ctx, "C11.logabsdet-is-log-abs-det", zabs(det_cofactor(W)) * den == numr, hyps=hy)
+            # weight_inverse_and_logabsdet() agrees with the two separate accessors
+            V2, L2 = (P(v) for v in h.both)
+            ensure(h, ctx, "C11.combined-accessor-shape", z3.BoolVal(tuple(V2.shape) == (Dn, Dn) and L2.shape == ()))
+            if tuple(V2.shape) == (Dn, Dn) and L2.shape == ():
+                for i in range(Dn):
+                    for j in range(Dn):
+                        ensure(h, ctx, "C11.combined-accessor-inverse", V2[i, j] == V[i, j], meta={"tactic": "ring"})
+                ensure_logs_cancel(h, ctx, "C11.combined-accessor-logabsdet", L2[()] - L[()])
             return
         if mode == "forward":
             if cname == "Householder":
@@ -265,7 +274,9 @@ def linear_harness(cname, Dn, K, mode):
             return {"C11.orthogonal": bool(torch.allclose(res @ res.t(), I, atol=1e-8))}
         if mode == "accessors":
             W, V, L = res
-            return {"C11.inverse-is-inverse": bool(torch.allclose(W @ V, I, atol=1e-7)), "C11.logabsdet-is-log-abs-det": bool(abs(float(torch.slogdet(W)[1]) - float(L)) < 1e-7)}
+            V2, L2 = t.weight_inverse_and_logabsdet()
+            both_ok = bool(torch.allclose(V2, V, atol=1e-7)) and abs(float(L2) - float(L)) < 1e-7
+            return {"C11.combined-accessor-inverse": both_ok, "C11.combined-accessor-logabsdet": both_ok, "C11.inverse-is-inverse": bool(torch.allclose(W @ V, I, atol=1e-7)), "C11.logabsdet-is-log-abs-det": bool(abs(float(torch.slogdet(W)[1]) - float(L)) < 1e-7)}
         if mode == "forward":
             J = torch.autograd.functional.jacobian(lambda z: t.forward(z)[0], x)
             ok = all(abs(float(torch.slogdet(J[b, :, b, :])[1]) - float(res[1][b])) < 1e-7 for b in range(B))
